@@ -278,7 +278,7 @@ def run(prog, ctx):
                 ok, why = nonneg_expr(fi, s.value) if s.kind == "plain" else (False, "in-place update `%s`" % src(s.stmt))
                 ctx.check(ok, "C07.D3", key, fi.loc(s.stmt), "stores a non-negative coarsening value (%s)" % why,
                           "`%s` may store a negative coarsening value: %s" % (src(s.stmt), why))
-    ctx.floor("C07.D3", n3, 4, "stores of coarseningValue in the package")
+    ctx.floor("C07.D3", n3, 2, "stores of coarseningValue in the package")
 
     # ------------------------------------------------------------------ D4
     n4 = 0
